@@ -675,6 +675,130 @@ def r6(k: Kit) -> None:
            f'{len(cls.methods)} methods, {n} shortening calls')
 
 
+def r7(k: Kit) -> None:
+    """The containment test of a symlink uses the link's real directory."""
+    rep = k.rep
+    rep.rule('C13.R7', 'SFTPServer.symlink: the directory a relative link '
+             'target is resolved against in the containment test is the '
+             'directory the link is really created in - dirname() is taken '
+             'of the normalised new path (normpath / map_path), never of '
+             'the raw client path, whose trailing "/" or "/." makes '
+             'dirname() one level too deep')
+    fi = k.func('sftp.SFTPServer.symlink')
+    g = k.cfg(fi)
+    rd = k.rd(fi)
+    from ..flow import expr_sources
+    dn = [(n, c) for n, c in k.calls_named(fi, 'dirname')]
+    rep.floor('C13.R7', 'dirname() of the link path', len(dn), 1)
+    for n, c in dn:
+        arg = c.args[0] if c.args else None
+        ok = False
+        if arg is not None:
+            leaves, free = expr_sources(g, rd, n.id, arg)
+            exprs = [arg] + list(leaves)
+            normed = any(is_call(x, 'normpath') or is_call(x, 'map_path')
+                         for e in exprs for x in ast.walk(e))
+            raw = 'newpath' in free and not any(
+                is_call(x, 'normpath') or is_call(x, 'map_path')
+                for x in ast.walk(arg)) and isinstance(arg, ast.Name)
+            ok = normed and not raw
+        rep.check(ok, 'C13.R7', key(fi, 'link directory is normalised'),
+                  f'dirname({unparse(arg) if arg is not None else ""})',
+                  'dirname() of the raw new path: SYMLINK(target='
+                  '"../../secret.txt", newpath="a/lnk/") is checked as if '
+                  'the link lived in a/lnk, found to stay inside the root, '
+                  'and created as <root>/a/lnk -> ../../secret.txt, which '
+                  'resolves to <root>/../secret.txt - a following OPEN of '
+                  'a/lnk reads the file outside the root', k.loc(fi, n))
+
+
+def r8(k: Kit) -> None:
+    """The last step before the file system does not reinterpret a path."""
+    rep = k.rep
+    rep.rule('C13.R8', 'the helpers every confined path goes through after '
+             'it was normalised and clamped (_to_local_path on POSIX, '
+             'LocalFS.encode / decode) only change its type (os.fsencode / '
+             'os.fsdecode / bytes.decode): they do not replace separators, '
+             'expand "~" or variables, or normalise again - a name that was '
+             'one harmless component ("..\\..\\x", "~") would become a '
+             'path of its own after the containment decision was taken')
+    pure = {'os.fsencode', 'os.fsdecode', 'isinstance', 'cast', 'str',
+            'bytes'}
+    sites = [('sftp._to_local_path', lambda n: False if n.kind == 'atom'
+              and isinstance(n.ast, ast.Compare) and
+              dotted(n.ast.left) == 'sys.platform' and
+              isinstance(n.ast.ops[0], ast.Eq) else None),
+             ('sftp.LocalFS.encode', None), ('sftp.LocalFS.decode', None)]
+    n = 0
+    for q, posix in sites:
+        if not k.idx.has_func(q):
+            continue
+        fi = k.func(q)
+        g = k.cfg(fi)
+        n += 1
+        bad = None
+        for nd in g.nodes:
+            for c in g.calls_at(nd):
+                d = dotted(c.func) or ''
+                if d in pure or d.endswith('.decode') or \
+                        d.endswith('.encode'):
+                    continue
+                if posix is not None and \
+                        g.guarded_by(nd.id, posix) is not None and \
+                        g.guarded_by(nd.id, lambda x: (
+                            None if posix(x) is None else not posix(x))
+                        ) is None:
+                    # only on the win32 branch
+                    continue
+                bad = bad or (nd, d)
+        rep.check(bad is None, 'C13.R8', key(fi, 'type conversion only'),
+                  'calls: ' + ', '.join(sorted(pure)[:2]) + ' ...',
+                  f'`{bad[1] if bad else ""}(...)` rewrites the path after '
+                  'map_path / compose_path decided it stays inside: on a '
+                  'chrooted server "..\\..\\secret.txt" is one component '
+                  'for normpath and becomes <root>/../../secret.txt; a '
+                  'remote entry called "~" makes mget(..., recurse=True) '
+                  'write into $HOME instead of the destination',
+                  k.loc(fi, bad[0]) if bad else fi.loc(fi.node))
+    rep.floor('C13.R8', 'path conversion helpers', n, 2)
+
+
+def r9(k: Kit) -> None:
+    """A listing cannot name the same entry twice."""
+    rep = k.rep
+    rep.rule('C13.R9', 'SFTPClient._copy, directory case: a name that '
+             'already occurred in this listing is refused before the '
+             'recursive copy - otherwise a hostile server lists "x" as a '
+             'symlink to a directory outside the destination and then "x" '
+             'again as a directory (or file): the client creates the link '
+             'and then writes through it, with follow_symlinks=False')
+    fi = k.func('sftp.SFTPClient._copy')
+    g = k.cfg(fi)
+    rec = [nd for nd, c in k.calls_named(fi, '_copy', 'self')]
+    rep.floor('C13.R9', 'recursive copies', len(rec), 1)
+
+    def fresh(x: Node) -> Optional[bool]:
+        a = x.ast
+        if x.kind == 'atom' and isinstance(a, ast.Compare) and \
+                len(a.ops) == 1 and dotted(a.left) == 'filename' and \
+                isinstance(a.comparators[0], (ast.Name, ast.Attribute)):
+            if isinstance(a.ops[0], ast.In):
+                return False
+            if isinstance(a.ops[0], ast.NotIn):
+                return True
+        return None
+    for nd in rec:
+        w = g.guarded_by(nd.id, fresh)
+        rep.check(w is None, 'C13.R9', key(fi, 'repeated names refused'),
+                  'the recursive copy is reached only for a name not seen '
+                  'before in this directory',
+                  'nothing stops a listing from repeating a name: get(\'/d\', '
+                  'dest, recurse=True) against a server that lists x -> '
+                  '<outside>/victim_dir and then directory x writes '
+                  'evil.txt into <outside>/victim_dir', k.loc(fi, nd),
+                  g.describe_path(w) if w else None)
+
+
 def run(idx, rep, tier):
     k = Kit(idx, rep)
     rep.assumptions += NOT_DECIDED
@@ -684,3 +808,6 @@ def run(idx, rep, tier):
     r4(k)
     r5(k)
     r6(k)
+    r7(k)
+    r8(k)
+    r9(k)
